@@ -658,9 +658,10 @@ func mergeIsStrict(dir string) (bool, error) {
 }
 
 // readerStackFacts reads three statements off message_reader.go:
-//  [0] discard(): a loop `for X.parent != nil { X.readerStack = X.parent }` comes before the discardN call;
-//  [1] readMessageV2: `X.remain -= <batch size> - int(<limited reader>.N)` (what the codec consumed, not the batch size);
-//  [2] readMessageV1: `remain = sz - (n - int(<limited reader>.N))`.
+//
+//	[0] discard(): a loop `for X.parent != nil { X.readerStack = X.parent }` comes before the discardN call;
+//	[1] readMessageV2: `X.remain -= <batch size> - int(<limited reader>.N)` (what the codec consumed, not the batch size);
+//	[2] readMessageV1: `remain = sz - (n - int(<limited reader>.N))`.
 func readerStackFacts(file string) ([3]bool, error) {
 	var facts [3]bool
 	fset := token.NewFileSet()
@@ -742,26 +743,93 @@ func readerStackFacts(file string) ([3]bool, error) {
 // top-level statement `recv.conn.Close()` with no return / branch before it — is a "closer"; every call `x.M()` of a
 // closer in the analysed functions is rewritten to `x.conn.Close()`, so that the close rules below see through a helper
 // such as `func (c *Conn) abortRead() { c.conn.Close(); c.rbuf.Discard(…) }`.
-func inlineClosers(fns map[string]*ast.FuncDecl) {
-	closers := map[string]bool{}
+//
+// Returned: dropsBuffer — in do, ApiVersions and Batch.close, every block guarded by `!errors.As(err, &kafkaError)` that
+// closes the connection also drops what is left in the read buffer (`x.rbuf.Discard(x.rbuf.Buffered())`, directly or
+// through the closer): callers already in flight must not be served the rest of the broken response.
+func inlineClosers(fns map[string]*ast.FuncDecl) (dropsBuffer bool) {
+	isDrop := func(c *ast.CallExpr) bool {
+		sel, ok := c.Fun.(*ast.SelectorExpr)
+		return ok && sel.Sel.Name == "Discard" && strings.HasSuffix(exprString(sel.X), ".rbuf") && len(c.Args) == 1 && containsCall(c.Args[0], "Buffered")
+	}
+	plainCall := func(st ast.Stmt) *ast.CallExpr {
+		if es, ok := st.(*ast.ExprStmt); ok {
+			if c, ok := es.X.(*ast.CallExpr); ok {
+				return c
+			}
+		}
+		return nil
+	}
+	closers, closerDrops := map[string]bool{}, map[string]bool{}
 	for name, fd := range fns {
 		if name == "Close" || recvName(fd) != "Conn" || fd.Type.Params.NumFields() != 0 {
 			continue
 		}
 		want := recvIdent(fd) + ".conn.Close"
 		for _, st := range fd.Body.List {
-			es, ok := st.(*ast.ExprStmt)
-			if !ok {
+			c := plainCall(st)
+			if c == nil {
 				break // anything but a plain call before the close: not a closer
 			}
-			if c, ok := es.X.(*ast.CallExpr); ok && len(c.Args) == 0 && exprString(c.Fun) == want {
+			if len(c.Args) == 0 && exprString(c.Fun) == want {
 				closers[name] = true
 				break
 			}
 		}
+		if closers[name] {
+			for _, st := range fd.Body.List {
+				if c := plainCall(st); c != nil && isDrop(c) {
+					closerDrops[name] = true
+				}
+			}
+		}
 	}
-	if len(closers) == 0 {
-		return
+	// the blocks that close on non-kafka errors: do they drop the buffer too?
+	dropsBuffer = true
+	for _, name := range []string{"do", "ApiVersions", "Batch.close"} {
+		fd, found := fns[name], false
+		if fd == nil {
+			return false
+		}
+		ast.Inspect(fd.Body, func(n ast.Node) bool {
+			is, ok := n.(*ast.IfStmt)
+			if !ok {
+				return true
+			}
+			notAs := false
+			ast.Inspect(is.Cond, func(m ast.Node) bool {
+				if u, ok := m.(*ast.UnaryExpr); ok && u.Op == token.NOT && containsCall(u.X, "As") {
+					notAs = true
+				}
+				return true
+			})
+			if !notAs {
+				return true
+			}
+			closes, drops := false, false
+			for _, st := range is.Body.List {
+				c := plainCall(st)
+				if c == nil {
+					continue
+				}
+				if sel, ok := c.Fun.(*ast.SelectorExpr); ok {
+					switch {
+					case closers[sel.Sel.Name] && len(c.Args) == 0:
+						closes, drops = true, drops || closerDrops[sel.Sel.Name]
+					case sel.Sel.Name == "Close":
+						closes = true
+					case isDrop(c):
+						drops = true
+					}
+				}
+			}
+			if closes {
+				found = true
+				dropsBuffer = dropsBuffer && drops
+			}
+			return true
+		})
+		dropsBuffer = dropsBuffer && found
 	}
 	for _, fd := range fns {
 		ast.Inspect(fd.Body, func(n ast.Node) bool {
@@ -775,6 +843,7 @@ func inlineClosers(fns map[string]*ast.FuncDecl) {
 			return true
 		})
 	}
+	return dropsBuffer
 }
 
 // closesOnNonKafka: the function contains `if !errors.As(err, &X) [&& !errors.Is(err, io.ErrShortBuffer)] { ….Close() }`
@@ -1031,7 +1100,7 @@ func extractConnLegacy(repo, root string) error {
 			}
 		}
 	}
-	inlineClosers(connFns)
+	dropsBuffer := inlineClosers(connFns)
 	var b strings.Builder
 	b.WriteString("-- GENERATED by /verif/go/extract (connlegacy) from /repo/*.go — do not edit\n")
 	b.WriteString("import KafkaVerif.Model.ConnOps\nimport KafkaVerif.Model.TransportConnC17\nimport KafkaVerif.Model.ReaderStack\nnamespace KV.Gen.ConnLegacy\nopen KV.ConnOps\n\n")
@@ -1157,10 +1226,10 @@ func extractConnLegacy(repo, root string) error {
 		return fmt.Errorf("untranslated: %v", err)
 	}
 	b.WriteString("/-- conn.go/batch.go: on which exit paths the Conn's read lock (rlock) is released / handed over -/\n")
-	fmt.Fprintf(&b, "def lockFacts : LockFacts := { peekErr := %v, noProgress := %v, desyncCloses := %v, yield := %v, take := %v, leave := %v, doBody := %v, apiVersions := %v, batchHandover := %v, batchClose := %v }\n\n",
+	fmt.Fprintf(&b, "def lockFacts : LockFacts := { peekErr := %v, noProgress := %v, desyncCloses := %v, yield := %v, take := %v, leave := %v, doBody := %v, apiVersions := %v, batchHandover := %v, batchClose := %v, dropsBuffer := %v }\n\n",
 		wf["peekErr"], wf["noProgress"], wf["desyncCloses"], wf["yield"], wf["take"], wf["leave"], unlockAfter(connFns["do"], "waitResponse", false),
 		unlockAfter(connFns["ApiVersions"], "waitResponse", false), unlockAfter(connFns["ReadBatchWith"], "waitResponse", true),
-		batchCloseUnlocks(connFns["Batch.close"]))
+		batchCloseUnlocks(connFns["Batch.close"]), dropsBuffer)
 	// parsers that are not readFrom methods: read.go fetch headers, conn.go element callbacks
 	b.WriteString("-- read.go readFetchResponseHeaderV2/V5/V10\n")
 	for _, hv := range []string{"V2", "V5", "V10"} {
